@@ -464,8 +464,42 @@ def cases(draw):
     return c
 
 
+def _vocabulary_walk(ctx):
+    """Totality over the data tables: every counted relative pattern (instantiated), fixed relative phrase and month/weekday
+    name of every language goes through parse once with that language selected (a data entry the code cannot digest must
+    not make parse raise)."""
+    from checks import c06
+
+    def it(shard, nshards):
+        for i, lang in enumerate(data.language_order()):
+            if i % nshards != shard:
+                continue
+            inf = data.raw_info(lang)
+            seen = set()
+            strings_ = []
+            for key, pat in data.relative_patterns(inf):
+                for n in ("2", "1.5"):
+                    for s_ in (c06.instantiate(pat, n) or [])[:2]:
+                        strings_.append(s_)
+            for ws in inf.get("relative-type", {}).values():
+                strings_.extend(ws)
+            for key in data.MONTHS + data.WEEKDAYS:
+                strings_.extend("12 %s 2014" % w for w in inf.get(key, []))
+            for loc_spec in inf.get("locale_specific", {}).values():
+                for pats in loc_spec.get("relative-type-regex", {}).values():
+                    for pat in pats:
+                        strings_.extend((c06.instantiate(pat, "2") or [])[:1])
+            for s_ in strings_:
+                if s_ in seen or not s_:
+                    continue
+                seen.add(s_)
+                yield {"s": s_[:100], "sclass": "soup", "settings": None, "langkw": {"languages": [lang]}, "formats": None}
+    return it
+
+
 def stages(ctx):
-    return [Stage("fuzz", "hyp", strategy=cases(), examples=ctx.n(20000, 600000))]
+    return [Stage("vocabulary_walk", "enum", cases=_vocabulary_walk(ctx), exhaustive=False),
+            Stage("fuzz", "hyp", strategy=cases(), examples=ctx.n(20000, 600000))]
 
 
 def extra_phase(ctx, known, total):
